@@ -1074,6 +1074,38 @@ theorem valueTypedB_sound (ops : Ops DT Val) (c : ClassDesc DT Val) (cfg : Cfg V
   have := List.all_eq_true.1 h pdv hp
   simpa [hn] using this
 
+/-- monitor soundness for the unit clause: if `appliedB` accepts the observation of a registered module, then every
+parameter which is described shows — up to the driver's equality on datatypes — exactly the datatype `main_unit_applied`
+proves for the model: the datatype after its overrides with the main unit of the configuration put in -/
+theorem appliedB_unit_sound (ops : Ops DT Val) (u : UnitOps DT) (g : Glue DT Val) (c : ClassDesc DT Val) (cfg : Cfg Val)
+    (o : ObsModule DT Val) (h : appliedB ops u g c cfg o = true) (hreg : o.registered = true)
+    (pd : ParamDesc DT Val) (hpd : pd ∈ c.params) (dt0 : DT) (dflt : Option Val)
+    (hs : startOf ops c cfg pd = some (dt0, dflt)) :
+    ∃ op, findObs pd.name o.params = some op ∧
+      ∃ dt', dtAfter ops dt0 ((cfgOf pd.name cfg).getD []) = some dt' ∧
+        (op.described.isSome = true →
+          optB g.beqDT op.datainfo (some (shownDT u (mainUnit ops u c cfg) dt')) = true) := by
+  unfold appliedB at h
+  simp only [hreg, Bool.not_true, Bool.false_or, Bool.and_eq_true] at h
+  have hp := List.all_eq_true.1 h.2 pd hpd
+  simp only [hs] at hp
+  cases hf : findObs pd.name o.params with
+  | none => simp [hf] at hp
+  | some op =>
+    simp only [hf] at hp
+    refine ⟨op, rfl, ?_⟩
+    unfold paramAppliedB at hp
+    cases hd : dtAfter ops dt0 ((cfgOf pd.name cfg).getD []) with
+    | none => simp [hd] at hp
+    | some dt' =>
+      simp only [hd, Bool.and_eq_true] at hp
+      refine ⟨dt', rfl, ?_⟩
+      intro hdesc
+      have h4 := hp.1.2
+      cases hdd : op.described with
+      | none => rw [hdd] at hdesc; cases hdesc
+      | some n => simpa [hdd] using h4
+
 /-! ## which configuration file is applied -/
 
 open Frappy.Lemmas.ConfigUnit in
@@ -1209,6 +1241,22 @@ example : ∃ i, applyConfigU toyOpsU toyUnits exClassU [("description", .prop (
   · rfl
   · simp [exValue] at hn
   · simp [exValue] at hn
+
+def toyGlue : Glue ((Int × Int) × String) Int := ⟨(· == ·), (· == ·), fun n _ => some n⟩
+
+def exObsU (paMaxUnit : String) : ObsModule ((Int × Int) × String) Int :=
+  { registered := true, errors := [], modProps := [], events := [], driver := [],
+    params := [⟨"value", some 1, some ((0, 10), "K"), some "value", ["value"], [], []⟩,
+               ⟨"pa", some 1, some ((0, 8), "K"), some "pa", ["pa"], [], []⟩,
+               ⟨"pa_max", some 8, some ((0, 8), paMaxUnit), some "pa_max", ["pa_max"], [], []⟩] }
+
+/-- the monitor accepts the observation in which every `$` shows the configured unit K, and refuses the one in which the
+derived limit still shows `$` (what the seeded change C10-m11 produces for structured datatypes) -/
+example :
+    let cfg : Cfg Int := [("description", .prop (.bare 7)), ("value", .acc [("unit", 1)]), ("pa", .acc [("max", 8)])]
+    appliedB toyOpsU toyUnits toyGlue exClassU cfg (exObsU "K") = true ∧
+    appliedB toyOpsU toyUnits toyGlue exClassU cfg (exObsU "$") = false := by
+  decide +kernel
 
 /-- site/cryo.py shadows general/cryo_cfg.py; within one directory `_cfg.py` is preferred; a missing name is not found -/
 example :
